@@ -19,7 +19,7 @@ Open Scope Z_scope.
 Definition memb (d : nat) (s : list nat) : bool := existsb (Nat.eqb d) s.
 
 Inductive bk := BA | BB.
-Inductive cop := CGet | CPut | CFm.
+Inductive cop := CGet | CPut | CFm | CGfc.
 Record call := mkcall { c_bk : bk; c_op : cop; c_args : list nat; c_fault : Z }.
 
 (** [sa]/[sb]: contents; [fl]: faults still to be injected (one per backend
@@ -43,6 +43,13 @@ Definition record (b : bk) (o : cop) (args : list nat) (s : st) : Z * st :=
 Definition bget (b : bk) (d : nat) (s : st) : Z * st :=
   let (f, s1) := record b CGet [d] s in
   if f =? 0 then ((if memb d (contents b s1) then 0 else 5), s1) else (f, s1).
+
+(** [GetFromComposite(p, child of p, slicer)] on a backend: the backends of
+    this model hold whole parents; the child is served iff the parent is held
+    (code [0] = the child's bytes).  A call of its own kind in the log. *)
+Definition bgfc (b : bk) (p : nat) (s : st) : Z * st :=
+  let (f, s1) := record b CGfc [p] s in
+  if f =? 0 then ((if memb p (contents b s1) then 0 else 5), s1) else (f, s1).
 
 (** [Put] of a buffer [buf]: an injected fault wins; otherwise an error buffer
     yields its error; otherwise the object is stored. *)
@@ -112,6 +119,24 @@ Definition rsingle (r : repl) (d : nat) (s : st) : Z * st :=
       if c =? 0 then sink_get_nf d s1 else (c, s1)
   end.
 
+(** [WithErrorHandler(sink.GetFromComposite, notFoundToInternalErrorHandler)]. *)
+Definition sink_gfc_nf (p : nat) (s : st) : Z * st :=
+  let (b, s1) := bgfc BA p s in ((if b =? 5 then 13 else b), s1).
+
+(** ReplicateComposite(parent p, child, slicer).  noop: the source's
+    GetFromComposite.  local, deduplicating, concurrency-limiting: the
+    replicator's own ReplicateMultiple on the singleton {p} - for the local
+    replicator [sink.Put(p, source.Get(p))], so the WHOLE PARENT is what lands
+    in the sink - and, if that succeeded, the child is read back from the sink
+    (NOT_FOUND there becomes INTERNAL); a failed ReplicateMultiple is the
+    result and the sink is not read. *)
+Definition rcomposite (r : repl) (p : nat) (s : st) : Z * st :=
+  match r with
+  | RNoop => bgfc BB p s
+  | _ => let (c, s1) := rmultiple r [p] s in
+         if c =? 0 then sink_gfc_nf p s1 else (c, s1)
+  end.
+
 Fixpoint copying (r : repl) : bool :=
   match r with RLocal => true | RNoop => false | RDedup r' | RLimit r' => copying r' end.
 
@@ -122,7 +147,31 @@ Definition cget (r : repl) (d : nat) (s : st) : Z * st :=
   let (b, s1) := bget BA d s in
   if b =? 5 then rsingle r d s1 else (b, s1).
 
+(** GetFromCompositeWithBlobReplicator with the same single-shot selector:
+    the initial backend is [BA] (fast / primary); only NOT_FOUND selects the
+    replicator, once; the replicator's outcome is final (a second NOT_FOUND
+    finds the selector exhausted and stays NOT_FOUND). *)
+Definition cgfc (r : repl) (p : nat) (s : st) : Z * st :=
+  let (b, s1) := bgfc BA p s in
+  if b =? 5 then rcomposite r p s1 else (b, s1).
+
 Inductive comp := ReadCaching | ReadFallback.
+
+(** Which backend name the selector prepends to the error of a read (Get or
+    GetFromComposite): read caching never prepends anything; read fallback
+    prepends "Primary" to an error other than NOT_FOUND of the initial
+    backend ([1]) and "Secondary" to an error other than NOT_FOUND that the
+    replicator produced ([2]) - also when that error stems from the sink, i.e.
+    the primary; NOT_FOUND is passed on as it is ([0]).  [first] is the initial
+    backend's answer, [final] the result of the read. *)
+Definition read_pfx (k : comp) (first final : Z) : Z :=
+  match k with
+  | ReadCaching => 0
+  | ReadFallback =>
+      if first =? 0 then 0
+      else if negb (first =? 5) then 1
+      else if (final =? 0) || (final =? 5) then 0 else 2
+  end.
 
 (** Put goes to the embedded backend: slow for read caching, primary for fallback. *)
 Definition put_target (k : comp) : bk := match k with ReadCaching => BB | ReadFallback => BA end.
@@ -141,7 +190,7 @@ Definition cfm (k : comp) (r : repl) (ds : list nat) (s : st) : Z * list nat * s
       if c3 =? 0 then (0, m2, s3) else ((if c3 =? 5 then 13 else c3), [], s3)
   end.
 
-Inductive op := OGet (d : nat) | OPut (d : nat) | OFm (ds : list nat).
+Inductive op := OGet (d : nat) | OPut (d : nat) | OFm (ds : list nat) | OGfc (p : nat).
 
 (** Result of one operation: code, FindMissing answer. *)
 Definition exec_op (k : comp) (r : repl) (o : op) (s : st) : (Z * list nat) * st :=
@@ -149,17 +198,27 @@ Definition exec_op (k : comp) (r : repl) (o : op) (s : st) : (Z * list nat) * st
   | OGet d => let (c, s1) := cget r d s in ((c, []), s1)
   | OPut d => let (c, s1) := cput k d s in ((c, []), s1)
   | OFm ds => let '(c, m, s1) := cfm k r (dedup_sort ds) s in ((c, m), s1)
+  | OGfc p => let (c, s1) := cgfc r p s in ((c, []), s1)
+  end.
+
+Definition step_pfx (k : comp) (r : repl) (o : op) (s : st) : Z :=
+  match o with
+  | OGet d => read_pfx k (fst (bget BA d s)) (fst (cget r d s))
+  | OGfc p => read_pfx k (fst (bgfc BA p s)) (fst (cgfc r p s))
+  | _ => 0
   end.
 
 (** One step of a history: the operation carries the faults injected into
     its backend calls.  The record kept per step is what the harness observes:
-    result, calls of this step (oldest first), contents afterwards. *)
-Record step_obs := mkobs { o_res : Z * list nat; o_calls : list call; o_a : list nat; o_b : list nat }.
+    result, calls of this step (oldest first), contents afterwards, backend
+    name prepended to the error of a read. *)
+Record step_obs := mkobs { o_res : Z * list nat; o_calls : list call; o_a : list nat; o_b : list nat; o_pfx : Z }.
 
 Definition run_step (k : comp) (r : repl) (of : op * list Z) (ab : list nat * list nat)
   : step_obs * (list nat * list nat) :=
-  let '(res, s1) := exec_op k r (fst of) (mkst (fst ab) (snd ab) (snd of) []) in
-  (mkobs res (rev (lg s1)) (sa s1) (sb s1), (sa s1, sb s1)).
+  let s0 := mkst (fst ab) (snd ab) (snd of) [] in
+  let '(res, s1) := exec_op k r (fst of) s0 in
+  (mkobs res (rev (lg s1)) (sa s1) (sb s1) (step_pfx k r (fst of) s0), (sa s1, sb s1)).
 
 Fixpoint run_hist (k : comp) (r : repl) (h : list (op * list Z)) (ab : list nat * list nat) : list step_obs :=
   match h with
